@@ -50,6 +50,7 @@ end
 structure KeysProg where
   kb : KB
   armors : List (Nat × Armor)
+  objs : List Nat := []        -- keys whose raw private key the harness holds (every key it created)
 
 def stepKeys (p : KeysProg) (toks : List String) : KeysProg × String :=
   let out (r : KB × KOut) (p : KeysProg) : KeysProg × String :=
@@ -62,7 +63,8 @@ def stepKeys (p : KeysProg) (toks : List String) : KeysProg × String :=
     | some (k, []), some m, some (s, []) => (p, showBool (verify k m s))
     | _, _, _ => (p, "bad-op")
   | ["kb.new"] => ({ kb := [], armors := [] }, "ok")
-  | ["kb.create", k, pass] => out (kstep p.kb (.create ((k.toNat?).getD 0) pass)) p
+  | ["kb.create", k, pass] =>
+    out (kstep p.kb (.create ((k.toNat?).getD 0) pass)) { p with objs := (k.toNat?).getD 0 :: p.objs }
   | ["kb.delete", k, pass] => out (kstep p.kb (.delete ((k.toNat?).getD 0) pass)) p
   | ["kb.update", k, o, n] => out (kstep p.kb (.update ((k.toNat?).getD 0) o n)) p
   | ["kb.sign", k, pass, m] => out (kstep p.kb (.sign ((k.toNat?).getD 0) pass ((m.toNat?).getD 0))) p
@@ -76,7 +78,9 @@ def stepKeys (p : KeysProg) (toks : List String) : KeysProg × String :=
     | some a => out (kstep p.kb (.importArmor a d e)) p
     | none => (p, "err")
   | ["kb.exportobj", k, pass] => out (kstep p.kb (.exportObj ((k.toNat?).getD 0) pass)) p
-  | ["kb.importobj", k, e] => out (kstep p.kb (.importObj ((k.toNat?).getD 0) e)) p
+  | ["kb.importobj", k, e] =>
+    if p.objs.contains ((k.toNat?).getD 0) then out (kstep p.kb (.importObj ((k.toNat?).getD 0) e)) p
+    else (p, "err")          -- no such private key exists to import
   | ["kb.list"] => out (kstep p.kb .list) p
   | _ => (p, "bad-op")
 
